@@ -47,3 +47,7 @@ def fill(chk, NA):
         'every document of the shared corpora (conformant documents of every map, one target per C03 fault kind per map, all {1,2,3}^3 interchange x group x set shapes with and without a faulty set, the suite sources, every single structural mutation of three base documents) is validated with the acknowledgement sink; verdict, error tree (read through the visitor protocol) and the parsed acknowledgement are compared with an independent recount from the source text',
         'trusted: the reference tokenizer and the tree reader; group/set naming and totals are only compared when the envelope nests properly and every ST carries identifier and control number; AK404 equality is left to C06 when the value contains an acknowledgement delimiter',
         'exhaustive enumeration of bounded document families on the real validator with a recount oracle', 'E3', 'DESIGN.md 3/C05')
+    chk('C06', 'exploration',
+        'every acknowledgement produced for the C05 corpora plus hostile-echo documents (foreign delimiters; data containing ~ * : ^ LF in elements echoed to AK404/IK404 and in ISA/GS/ST fields echoed to the envelope, AK1 and AK2; 3-4 groups; 12 errors on one document) is re-read with the reader, recounted independently, matched line by line against the error tree, and validated again',
+        'trusted: reference tokenizer/recount; re-validation may reject an acknowledgement only through element errors on fields that echo source data',
+        'exhaustive enumeration of bounded document families on the real validator, acknowledgement parsed back and re-validated', 'E3', 'DESIGN.md 3/C06')
